@@ -886,7 +886,10 @@ fn run_toy(o: &Opts) {
             }
             Err(m) => {
                 sink.line(&tx_op(&[]), "PANIC");
-                sink.monitor_fail("panic:tx", &format!("PacketWriter panicked: {}", m));
+                // a long-header packet whose payload + tag does not fit the 2-byte Length field (>= 2^14): the writer offers the
+                // whole buffer and then asserts in `encode_varint(.., EncodeBytes::Two)` — a latent defect with its own signature
+                let key = if m.contains("value.0_<_1u64_<<_14") { "panic:tx:long-length-field-overflow" } else { "panic:tx" };
+                sink.monitor_fail(key, &format!("PacketWriter panicked: {}", m));
                 continue;
             }
         };
@@ -1061,7 +1064,8 @@ fn run_ring(o: &Opts) {
             }
             Err(m) => {
                 sink.line(&op, "PANIC");
-                sink.monitor_fail("ring:panic:tx", &format!("PacketWriter panicked: {}", m));
+                let key = if m.contains("value.0_<_1u64_<<_14") { "ring:panic:tx:long-length-field-overflow" } else { "ring:panic:tx" };
+                sink.monitor_fail(key, &format!("PacketWriter panicked: {}", m));
                 continue;
             }
         };
